@@ -1,6 +1,7 @@
 import TarpcModel.Server.Run
 import TarpcModel.Lemmas.ServerDelayQ
 import TarpcModel.Lemmas.PairSubst
+import TarpcModel.Lemmas.ServerExpire
 /-!
 Shared lemmas about the server model (`Server/Model.lean`):
 
@@ -1261,9 +1262,9 @@ theorem Mid.remove_entry {L g0} {s s' : St} (h : Mid L g0 s) {e : SEntry} (he : 
   · rw [hl]; exact h.lim
 
 /-- Inserting a fresh entry with a fresh timer key and a fresh execution. -/
-theorem Mid.insert_entry {L g0} {s s' : St} (h : Mid L g0 s) {id key : Nat}
+theorem Mid.insert_entry {L g0} {s s' : St} (h : Mid L g0 s) {id key rem : Nat}
     (hfresh : ∀ e ∈ s.inflight, e.id ≠ id)
-    (hin : s'.inflight = s.inflight ++ [{ id := id, timerKey := key, rid := s.execs.length }])
+    (hin : s'.inflight = s.inflight ++ [{ id := id, timerKey := key, rid := s.execs.length, remainder := rem }])
     (hkv : s'.timers.kv.Perm ((key, id) :: s.timers.kv)) (hwf : s'.timers.KvWF)
     (hek : s'.execs.map ekey = s.execs.map ekey ++ [(s.execs.length, id, false)])
     (hg : gh L g0 s'.obs = gh L g0 s.obs)
@@ -1378,29 +1379,74 @@ theorem Mid.insert_entry {L g0} {s s' : St} (h : Mid L g0 s) {id key : Nat}
 @[simp] theorem cancelRequest_cancelQ (s : St) (id : Nat) : (cancelRequest s id).1.cancelQ = s.cancelQ := by
   unfold cancelRequest; (try simp only []); (repeat' split) <;> pair_subst <;> simp [*]
 
-@[simp] theorem pollExpired_sidx (s : St) (now : Nat) : (pollExpired s now).1.sidx = s.sidx := by
-  unfold pollExpired; (try simp only []); (repeat' split) <;> pair_subst <;> simp [*]
+/-- what `poll_expired` keeps -/
+structure ExpKeep (s s' : St) : Prop where
+  sidx : s'.sidx = s.sidx
+  limit : s'.limit = s.limit
+  throttleAfterRead : s'.throttleAfterRead = s.throttleAfterRead
+  dropped : s'.dropped = s.dropped
+  done : s'.done = s.done
+  respQ : s'.respQ = s.respQ
+  cancelQ : s'.cancelQ = s.cancelQ
+  execsLen : s'.execs.length = s.execs.length
+  inflightLen : s'.inflight.length ≤ s.inflight.length
 
-@[simp] theorem pollExpired_poisoned (s : St) (now : Nat) : (pollExpired s now).1.poisoned = s.poisoned := by
-  unfold pollExpired; (try simp only []); (repeat' split) <;> pair_subst <;> simp [*]
+theorem ExpKeep.refl (s : St) : ExpKeep s s := by constructor <;> first | rfl | exact Nat.le_refl _
 
-@[simp] theorem pollExpired_limit (s : St) (now : Nat) : (pollExpired s now).1.limit = s.limit := by
-  unfold pollExpired; (try simp only []); (repeat' split) <;> pair_subst <;> simp [*]
+theorem ExpKeep.trans {a b c : St} (h1 : ExpKeep a b) (h2 : ExpKeep b c) : ExpKeep a c :=
+  ⟨h2.sidx.trans h1.sidx, h2.limit.trans h1.limit, h2.throttleAfterRead.trans h1.throttleAfterRead,
+    h2.dropped.trans h1.dropped, h2.done.trans h1.done, h2.respQ.trans h1.respQ, h2.cancelQ.trans h1.cancelQ,
+    h2.execsLen.trans h1.execsLen, Nat.le_trans h2.inflightLen h1.inflightLen⟩
 
-@[simp] theorem pollExpired_throttleAfterRead (s : St) (now : Nat) : (pollExpired s now).1.throttleAfterRead = s.throttleAfterRead := by
-  unfold pollExpired; (try simp only []); (repeat' split) <;> pair_subst <;> simp [*]
+theorem abortExec_execs_length' (s : St) (rid : Nat) : (abortExec s rid).execs.length = s.execs.length := by
+  have := congrArg List.length (abortExec_ekeys s rid)
+  simp only [abortKeys, List.length_map] at this
+  exact this
 
-@[simp] theorem pollExpired_dropped (s : St) (now : Nat) : (pollExpired s now).1.dropped = s.dropped := by
-  unfold pollExpired; (try simp only []); (repeat' split) <;> pair_subst <;> simp [*]
+theorem expireStep_keep (s : St) (now : Nat) : ExpKeep s (expireStep s now).1 := by
+  have h := expireStep_shape s now
+  revert h; generalize expireStep s now = p; intro h
+  obtain ⟨s', r⟩ := p
+  dsimp only at h ⊢
+  cases h with
+  | idleNone q hp => constructor <;> first | rfl | exact Nat.le_refl _
+  | idlePending q hp => constructor <;> first | rfl | exact Nat.le_refl _
+  | orphan q e hp hf => constructor <;> first | rfl | exact Nat.le_refl _
+  | abort q e en hp hf h0 =>
+    constructor <;> (try simp)
+    · exact abortExec_execs_length' _ _
+    · exact List.length_filter_le _ _
+  | rearmed q e en s2 hp hf h0 hr =>
+    have hfr := rearm_frame hr
+    obtain ⟨q', key, w, _, rfl⟩ := rearm_some hr
+    exact ⟨hfr.sidx, hfr.limit, hfr.throttleAfterRead, hfr.dropped, hfr.done, hfr.respQ, hfr.cancelQ,
+      by rw [hfr.execs], by simp⟩
+  | panicked q e en hp hf h0 hr => constructor <;> simp
 
-@[simp] theorem pollExpired_done (s : St) (now : Nat) : (pollExpired s now).1.done = s.done := by
-  unfold pollExpired; (try simp only []); (repeat' split) <;> pair_subst <;> simp [*]
+theorem pollExpired_keep (s : St) (now : Nat) : ExpKeep s (pollExpired s now).1 :=
+  pollExpired_rel now ExpKeep.refl (fun _ _ _ => ExpKeep.trans)
+    (fun s => by constructor <;> simp) (fun s => expireStep_keep s now) s
 
-@[simp] theorem pollExpired_respQ (s : St) (now : Nat) : (pollExpired s now).1.respQ = s.respQ := by
-  unfold pollExpired; (try simp only []); (repeat' split) <;> pair_subst <;> simp [*]
+@[simp] theorem pollExpired_sidx (s : St) (now : Nat) : (pollExpired s now).1.sidx = s.sidx :=
+  (pollExpired_keep s now).sidx
 
-@[simp] theorem pollExpired_cancelQ (s : St) (now : Nat) : (pollExpired s now).1.cancelQ = s.cancelQ := by
-  unfold pollExpired; (try simp only []); (repeat' split) <;> pair_subst <;> simp [*]
+@[simp] theorem pollExpired_limit (s : St) (now : Nat) : (pollExpired s now).1.limit = s.limit :=
+  (pollExpired_keep s now).limit
+
+@[simp] theorem pollExpired_throttleAfterRead (s : St) (now : Nat) : (pollExpired s now).1.throttleAfterRead = s.throttleAfterRead :=
+  (pollExpired_keep s now).throttleAfterRead
+
+@[simp] theorem pollExpired_dropped (s : St) (now : Nat) : (pollExpired s now).1.dropped = s.dropped :=
+  (pollExpired_keep s now).dropped
+
+@[simp] theorem pollExpired_done (s : St) (now : Nat) : (pollExpired s now).1.done = s.done :=
+  (pollExpired_keep s now).done
+
+@[simp] theorem pollExpired_respQ (s : St) (now : Nat) : (pollExpired s now).1.respQ = s.respQ :=
+  (pollExpired_keep s now).respQ
+
+@[simp] theorem pollExpired_cancelQ (s : St) (now : Nat) : (pollExpired s now).1.cancelQ = s.cancelQ :=
+  (pollExpired_keep s now).cancelQ
 
 /-- the execution `startRequest` creates -/
 def newExec (s : St) (id d : Nat) (tr : Trace) (b : Nat) : Exec :=
@@ -1422,7 +1468,8 @@ theorem startRequest_cases (s : St) (now id d : Nat) (tr : Trace) (b : Nat) :
         startRequest s now id d tr b =
           ({ startWoke s now id d with
                     timers := (s.timers.insert now (clampTimeout (d - now)) id).1, nextFresh := s.nextFresh + 1,
-                    inflight := s.inflight ++ [{ id := id, timerKey := key, rid := s.execs.length }],
+                    inflight := s.inflight ++ [{ id := id, timerKey := key, rid := s.execs.length,
+                                                 remainder := (d - now) - clampTimeout (d - now) }],
                     execs := s.execs ++ [newExec s id d tr b] }, some (newExec s id d tr b))) := by
   unfold startRequest
   split
@@ -1569,8 +1616,26 @@ theorem startRequest_cases (s : St) (now id d : Nat) (tr : Trace) (b : Nat) :
 @[simp] theorem cancelRequest_gh (L : Option Nat) (g0 : Ghost) (s : St) (id : Nat) : gh L g0 (cancelRequest s id).1.obs = gh L g0 s.obs := by
   unfold cancelRequest; (try simp only []); (repeat' split) <;> pair_subst <;> simp [*]
 
+theorem rearm_gh (L : Option Nat) (g0 : Ghost) {s s2 : St} {now : Nat} {en : SEntry} (hr : rearm s now en = some s2) :
+    gh L g0 s2.obs = gh L g0 s.obs := by
+  obtain ⟨q', key, w, _, rfl⟩ := rearm_some hr
+  cases w <;> simp
+
 @[simp] theorem pollExpired_gh (L : Option Nat) (g0 : Ghost) (s : St) (now : Nat) : gh L g0 (pollExpired s now).1.obs = gh L g0 s.obs := by
-  unfold pollExpired; (try simp only []); (repeat' split) <;> pair_subst <;> simp [*]
+  refine pollExpired_ind (P := fun s' => gh L g0 s'.obs = gh L g0 s.obs) now (fun s1 h => ?_) (fun s1 h => ?_) s rfl
+  · simpa using h
+  · rw [← h]
+    have hs := expireStep_shape s1 now
+    revert hs; generalize expireStep s1 now = p; intro hs
+    obtain ⟨s', r⟩ := p
+    dsimp only at hs ⊢
+    cases hs with
+    | idleNone q hp => rfl
+    | idlePending q hp => rfl
+    | orphan q e hp hf => rfl
+    | abort q e en hp hf h0 => simp
+    | rearmed q e en s2 hp hf h0 hr => exact rearm_gh L g0 (s := { s1 with timers := q }) hr
+    | panicked q e en hp hf h0 hr => simp
 
 @[simp] theorem startRequest_gh (L : Option Nat) (g0 : Ghost) (s : St) (now id d : Nat) (tr : Trace) (b : Nat) : gh L g0 (startRequest s now id d tr b).1.obs = gh L g0 s.obs := by
   rcases startRequest_cases s now id d tr b with ⟨_, h⟩ | ⟨_, _, h⟩ | ⟨_, _, _, h⟩ <;> simp [h]
@@ -1962,34 +2027,130 @@ theorem mid_cancelRequest {L g0} (s : St) (id : Nat) (h : Mid L g0 s) : Mid L g0
     subst hid
     exact (h.remove_timer_step he _ (by simp) (by simp) (Or.inr (by simp)) (by simp) (by simp)).1
 
-theorem mid_pollExpired {L g0} (s : St) (now : Nat) (h : Mid L g0 s) : Mid L g0 (pollExpired s now).1 := by
+/-- with distinct ids, re-keying the entry with `en`'s id changes only `en`'s `(timerKey, id)` pair -/
+theorem perm_map_rearmUpd {l : List SEntry} (hn : (l.map (·.id)).Nodup) {en : SEntry} (he : en ∈ l) (key : Nat) :
+    ((l.map (rearmUpd en.id key)).map SEntry.kv).Perm
+      ((key, en.id) :: (l.filter (fun x => x.id != en.id)).map SEntry.kv) := by
+  have h1 := perm_cons_filter_key (·.id) hn he
+  have h2 := (h1.map (rearmUpd en.id key)).map SEntry.kv
+  refine h2.trans ?_
+  simp only [List.map_cons]
+  have hhead : (rearmUpd en.id key en).kv = (key, en.id) := by
+    unfold rearmUpd; rw [if_pos (by simp)]; rfl
+  rw [hhead]
+  refine List.Perm.cons _ (List.Perm.of_eq ?_)
+  rw [List.map_map]
+  apply List.map_congr_left
+  intro x hx
+  have := (List.mem_filter.mp hx).2
+  simp only [bne_iff_ne, ne_eq] at this
+  simp only [Function.comp, rearmUpd_ne this]
+
+/-- Re-arming the timer of a tracked entry: the fired timer is gone from the queue, a fresh one with a
+fresh key is in, the entry carries the new key. -/
+theorem Mid.rearm_entry {L g0} {s s' : St} (h : Mid L g0 s) {en : SEntry} (he : en ∈ s.inflight) {key : Nat}
+    {kvq : List (Nat × Nat)}
+    (hin : s'.inflight = s.inflight.map (rearmUpd en.id key))
+    (hpop : s.timers.kv.Perm (en.kv :: kvq))
+    (hins : s'.timers.kv.Perm ((key, en.id) :: kvq)) (hwf : s'.timers.KvWF)
+    (hek : s'.execs.map ekey = s.execs.map ekey)
+    (hg : gh L g0 s'.obs = gh L g0 s.obs) (hl : s'.limit = s.limit) : Mid L g0 s' := by
+  have hids : s'.inflight.map (·.id) = s.inflight.map (·.id) := by
+    rw [hin, List.map_map]; apply List.map_congr_left; intro x _; simp
+  have hrids : s'.inflight.map (·.rid) = s.inflight.map (·.rid) := by
+    rw [hin, List.map_map]; apply List.map_congr_left; intro x _; simp
+  have hmem : ∀ x ∈ s'.inflight, ∃ y ∈ s.inflight, x.id = y.id ∧ x.rid = y.rid := by
+    intro x hx; rw [hin] at hx
+    obtain ⟨y, hy, rfl⟩ := List.mem_map.mp hx
+    exact ⟨y, hy, by simp, by simp⟩
+  refine ⟨⟨?_, ?_, hwf⟩, ⟨?_, ?_, ?_⟩, ⟨?_, ?_⟩, ?_, ?_⟩
+  · rw [hids]; exact h.table.idNodup
+  · rw [hin]
+    refine (perm_map_rearmUpd h.table.idNodup he key).trans ?_
+    have h1 := perm_cons_filter_key (·.id) h.table.idNodup he
+    have h2 := (h1.map SEntry.kv)
+    rw [List.map_cons] at h2
+    have h3 : ((s.inflight.filter (fun x => x.id != en.id)).map SEntry.kv).Perm kvq :=
+      List.Perm.cons_inv ((h2.symm.trans h.table.perm).trans hpop)
+    exact (List.Perm.cons _ h3).trans hins.symm
+  · rw [hek]; exact h.execs.rids
+  · intro x hx
+    obtain ⟨y, hy, hid, hrid⟩ := hmem x hx
+    rw [hek, hid, hrid]; exact h.execs.owner y hy
+  · rw [hrids]; exact h.execs.ridNodup
+  · intro x hx
+    obtain ⟨y, hy, hid, _⟩ := hmem x hx
+    rw [hg, hid]; exact h.coupled.read y hy
+  · intro x hx
+    obtain ⟨y, hy, hid, _⟩ := hmem x hx
+    rw [hg, hid]; exact h.coupled.unsent y hy
+  · rw [hg]; exact h.ok
+  · rw [hl]; exact h.lim
+
+theorem mid_expireStep {L g0} (s : St) (now : Nat) (h : Mid L g0 s) : Mid L g0 (expireStep s now).1 := by
   have hspec := DelayQ.pollExpired_kv s.timers now h.table.dq
-  unfold pollExpired
-  split
-  · exact h
-  · split
-    · rename_i q d heq
-      rw [heq] at hspec
-      simp only [DelayQ.PollRes.popped, DelayQ.PollSpec] at hspec
-      obtain ⟨hperm, hnk⟩ := hspec
-      have hmem : (d.key, d.val) ∈ s.timers.kv := hperm.mem_iff.mpr (List.mem_cons_self ..)
-      obtain ⟨en, hen, henkv⟩ := List.mem_map.mp (h.table.perm.mem_iff.mpr hmem)
-      have hid : en.id = d.val := congrArg Prod.snd henkv
-      have hfe : findEntry { s with timers := q } d.val = some en := by
-        have := findEntry_of_mem h.table hen
-        rw [hid] at this
-        exact this
-      simp only [hfe]
-      apply h.remove_entry hen (by simp [hid]) (by simpa [henkv] using hperm) (by simpa using hnk)
-        (Or.inr (by simp)) (by simp) (by simp)
-    · rename_i q heq
-      rw [heq] at hspec
-      simp only [DelayQ.PollRes.popped, DelayQ.PollSpec] at hspec
-      exact h.of_frame rfl hspec.1 hspec.2 rfl rfl rfl
-    · rename_i q heq
-      rw [heq] at hspec
-      simp only [DelayQ.PollRes.popped, DelayQ.PollSpec] at hspec
-      exact h.of_frame rfl hspec.1 hspec.2 rfl rfl rfl
+  have hs := expireStep_shape s now
+  revert hs; generalize expireStep s now = p; intro hs
+  obtain ⟨s', r⟩ := p
+  dsimp only at hs ⊢
+  -- what a popped timer tells: its entry is tracked and is the one `findEntry` finds
+  have popped : ∀ q (d : DqEntry), s.timers.pollExpired now = (q, .expired d) →
+      ∃ en, en ∈ s.inflight ∧ en.kv = (d.key, d.val) ∧ en.id = d.val ∧
+        findEntry { s with timers := q } d.val = some en ∧
+        s.timers.kv.Perm ((d.key, d.val) :: q.kv) ∧ q.nextKey = s.timers.nextKey := by
+    intro q d heq
+    rw [heq] at hspec
+    simp only [DelayQ.PollRes.popped, DelayQ.PollSpec] at hspec
+    obtain ⟨hperm, hnk⟩ := hspec
+    have hmem : (d.key, d.val) ∈ s.timers.kv := hperm.mem_iff.mpr (List.mem_cons_self ..)
+    obtain ⟨en, hen, henkv⟩ := List.mem_map.mp (h.table.perm.mem_iff.mpr hmem)
+    have hid : en.id = d.val := congrArg Prod.snd henkv
+    have hfe : findEntry { s with timers := q } d.val = some en := by
+      have := findEntry_of_mem h.table hen
+      rw [hid] at this
+      exact this
+    exact ⟨en, hen, henkv, hid, hfe, hperm, hnk⟩
+  cases hs with
+  | idleNone q heq =>
+    rw [heq] at hspec
+    simp only [DelayQ.PollRes.popped, DelayQ.PollSpec] at hspec
+    exact h.of_frame rfl hspec.1 hspec.2 rfl rfl rfl
+  | idlePending q heq =>
+    rw [heq] at hspec
+    simp only [DelayQ.PollRes.popped, DelayQ.PollSpec] at hspec
+    exact h.of_frame rfl hspec.1 hspec.2 rfl rfl rfl
+  | orphan q d heq hf =>
+    obtain ⟨en, _, _, _, hfe, _, _⟩ := popped q d heq
+    rw [hf] at hfe; cases hfe
+  | abort q d en' heq hf h0 =>
+    obtain ⟨en, hen, henkv, hid, hfe, hperm, hnk⟩ := popped q d heq
+    rw [hf] at hfe; cases hfe
+    apply h.remove_entry hen (by simp [hid]) (by simpa [henkv] using hperm) (by simpa using hnk)
+      (Or.inr (by simp)) (by simp) (by simp)
+  | rearmed q d en' s2 heq hf h0 hr =>
+    obtain ⟨en, hen, henkv, hid, hfe, hperm, hnk⟩ := popped q d heq
+    rw [hf] at hfe; cases hfe
+    obtain ⟨q', key, w, hi, rfl⟩ := rearm_some hr
+    obtain ⟨_, _, hp'⟩ := DelayQ.insert_ok_spec _ _ _ _ _ _ _ hi
+    have hqwf : q.KvWF := by
+      constructor
+      · have := ((hperm.map (·.1)).nodup_iff).mp h.table.dq.nodup
+        simp only [List.map_cons, List.nodup_cons] at this
+        exact this.2
+      · intro p hp
+        rw [hnk]
+        exact h.table.dq.lt p (hperm.mem_iff.mpr (List.mem_cons_of_mem _ hp))
+    have hwf := DelayQ.insert_ok_wf _ _ _ _ _ _ _ hi hqwf
+    refine h.rearm_entry hen (key := key) (kvq := q.kv) rfl (by rw [henkv]; exact hperm) hp' hwf ?_ ?_ ?_
+    · cases w <;> simp
+    · cases w <;> simp
+    · cases w <;> simp
+  | panicked q d en' heq hf h0 hr =>
+    exact h.of_frame rfl (.refl _) rfl rfl (by simp) rfl
+
+theorem mid_pollExpired {L g0} (s : St) (now : Nat) (h : Mid L g0 s) : Mid L g0 (pollExpired s now).1 :=
+  pollExpired_ind (P := Mid L g0) now (fun s1 h1 => h1.of_frame rfl (.refl _) rfl rfl (by simp) rfl)
+    (fun s1 h1 => mid_expireStep s1 now h1) s h
 
 /-! ### ghost steps -/
 
@@ -2164,13 +2325,7 @@ theorem mid_requestsPollNext {L g0} (fuel : Nat) (s : St) (now : Nat) (h : Mid L
 
 @[simp] theorem pollExpired_execs_length (s : St) (now : Nat) :
     (pollExpired s now).1.execs.length = s.execs.length := by
-  unfold pollExpired
-  split
-  · rfl
-  · split
-    · simp only []; split <;> simp
-    · simp
-    · simp
+  exact (pollExpired_keep s now).execsLen
 
 theorem startRequest_execs_length_ge (s : St) (now id d : Nat) (tr : Trace) (b : Nat) :
     s.execs.length ≤ (startRequest s now id d tr b).1.execs.length := by
@@ -2264,15 +2419,8 @@ theorem cancelRequest_length_le (s : St) (id : Nat) : (cancelRequest s id).1.inf
   · simp [h]
   · simp only [h, removeTimer_inflight, abortExec_inflight]; exact List.length_filter_le _ _
 
-theorem pollExpired_length_le (s : St) (now : Nat) : (pollExpired s now).1.inflight.length ≤ s.inflight.length := by
-  unfold pollExpired
-  split
-  · simp
-  · split
-    · simp only []; split <;> simp
-      exact List.length_filter_le _ _
-    · simp
-    · simp
+theorem pollExpired_length_le (s : St) (now : Nat) : (pollExpired s now).1.inflight.length ≤ s.inflight.length :=
+  (pollExpired_keep s now).inflightLen
 
 theorem baseStartSend_length_le (s : St) (id : Nat) (res : Res) :
     (baseStartSend s id res).1.inflight.length ≤ s.inflight.length := by
@@ -2327,7 +2475,7 @@ structure Started (s0 s' : St) (ex : Exec) : Prop where
   phase : ex.phase = .offered
   vis : ex.vis = none
   aborted : ex.aborted = false
-  inflight : ∃ key, s'.inflight = s0.inflight ++ [{ id := ex.id, timerKey := key, rid := ex.rid }]
+  inflight : ∃ key rem, s'.inflight = s0.inflight ++ [{ id := ex.id, timerKey := key, rid := ex.rid, remainder := rem }]
   execs : s'.execs = s0.execs ++ [ex]
   untracked : findEntry s0 ex.id = none
 
@@ -2339,7 +2487,7 @@ theorem startRequest_some (s : St) (now id d : Nat) (tr : Trace) (b : Nat) (s' :
   · rw [h1] at h
     simp only [Prod.mk.injEq, Option.some.injEq] at h
     obtain ⟨rfl, rfl⟩ := h
-    exact ⟨⟨rfl, rfl, rfl, rfl, ⟨key, rfl⟩, rfl, hf⟩, rfl⟩
+    exact ⟨⟨rfl, rfl, rfl, rfl, ⟨key, _, rfl⟩, rfl, hf⟩, rfl⟩
 
 /-- **`BaseChannel::poll_next` yields only what it just started**: some intermediate state `s0`
 (reached from `s` by removals only) accepted the request. -/
@@ -2399,16 +2547,16 @@ theorem basePollNext_some (fuel : Nat) (s : St) (now : Nat) (s' : St) (ex : Exec
 
 theorem Started.length {s0 s' : St} {ex : Exec} (h : Started s0 s' ex) :
     s'.inflight.length = s0.inflight.length + 1 := by
-  obtain ⟨key, hk⟩ := h.inflight; simp [hk]
+  obtain ⟨key, rem, hk⟩ := h.inflight; simp [hk]
 
 theorem Started.rid_lt {s0 s' : St} {ex : Exec} (h : Started s0 s' ex) : ex.rid < s'.execs.length := by
   rw [h.execs, h.rid]; simp
 
 /-- the new entry is the one `findEntry` returns for the id -/
 theorem Started.findEntry {s0 s' : St} {ex : Exec} (h : Started s0 s' ex) :
-    ∃ key, findEntry s' ex.id = some { id := ex.id, timerKey := key, rid := ex.rid } := by
-  obtain ⟨key, hk⟩ := h.inflight
-  refine ⟨key, ?_⟩
+    ∃ key rem, findEntry s' ex.id = some { id := ex.id, timerKey := key, rid := ex.rid, remainder := rem } := by
+  obtain ⟨key, rem, hk⟩ := h.inflight
+  refine ⟨key, rem, ?_⟩
   have hn := h.untracked
   unfold Server.findEntry at hn ⊢
   rw [hk, List.find?_append, hn]
